@@ -25,6 +25,8 @@ type TxSpec struct {
 	MetaSize   int   // approx. bytes of log padding in the metadata; -1 = no metadata at all
 	MetaFrames int   // number of data frames for the (compressed) metadata, >= 1
 	Fanout     int   // next-list fan-out for multi-frame payloads
+	NInst      int   // non-vote transactions: number of instructions (0 = 1 or 2, derived from the seed)
+	VoteAt     int   // non-vote transactions: instruction VoteAt-1 invokes the Vote program (0 = none); such a transaction is not a simple vote
 }
 
 type EntrySpec struct {
@@ -86,7 +88,7 @@ func DefaultOpts() GenOpts {
 func genTx(t *rapid.T, o GenOpts, allowBig bool) TxSpec {
 	var tx TxSpec
 	tx.Seed = rapid.Uint32().Draw(t, "txSeed")
-	kind := rapid.SampledFrom([]string{"legacy", "legacy", "vote", "v0", "v0-lookups"}).Draw(t, "txKind")
+	kind := rapid.SampledFrom([]string{"legacy", "legacy", "vote", "v0", "v0-lookups", "legacy-multi"}).Draw(t, "txKind")
 	tx.NSigs = rapid.SampledFrom([]int{1, 1, 2, 3}).Draw(t, "nSigs")
 	switch kind {
 	case "vote":
@@ -94,6 +96,11 @@ func genTx(t *rapid.T, o GenOpts, allowBig bool) TxSpec {
 		if tx.NSigs > 2 {
 			tx.NSigs = 2
 		}
+	case "legacy-multi":
+		// several instructions, one of which may invoke the Vote program: by the definition the server quotes
+		// (1-2 signatures, legacy message, a single instruction, which is Vote) this is never a simple vote
+		tx.NInst = rapid.IntRange(2, 4).Draw(t, "nInst")
+		tx.VoteAt = rapid.IntRange(0, tx.NInst).Draw(t, "voteAt")
 	case "v0":
 		tx.V0 = true
 	case "v0-lookups":
